@@ -309,6 +309,42 @@ fn main() {
         }
         t
     });
+    // S6: coefficients on both sides of every machine-word limit x every p
+    let wl = word_limit_ints();
+    run.bound("S6_word_limit_coefficients", wl.len());
+    run.par("S6 word-limit coefficients", wl.len(), |i| {
+        let mut t = Tally::default();
+        for s in [0i128, 5, -3] {
+            let x = Dec { n: wl[i].clone(), s };
+            let d = ndigits(&x.n);
+            let ps: Vec<u64> = (1..=d + 2).collect();
+            sweep(&run, &x, &ps, &mut t);
+        }
+        t
+    });
+    // S7: carry chains of every length behind every prefix length
+    let cc = carry_chains(tier.pick(20, 40), tier.pick(24, 70));
+    run.bound("S7_carry_chains", cc.len());
+    run.par("S7 carry chains", cc.len(), |i| {
+        let mut t = Tally::default();
+        let l = cc[i].len() as u64;
+        for sign in [1, -1] {
+            let x = Dec { n: big(&cc[i]) * sign, s: 4 };
+            // round just before the last one or two digits
+            let mut ps: Vec<u64> = vec![];
+            if l > 1 {
+                ps.push(l - 1);
+            }
+            if l > 2 {
+                ps.push(l - 2);
+            }
+            if ps.is_empty() {
+                continue;
+            }
+            sweep(&run, &x, &ps, &mut t);
+        }
+        t
+    });
     let _ = num_bigint::BigInt::zero();
     run.finish();
 }
